@@ -2,6 +2,7 @@ package main
 
 import (
 	"fmt"
+	hcpb "github.com/samaritan-proxy/samaritan/pb/config/hc"
 	"io"
 	"math/rand"
 	"net"
@@ -245,6 +246,34 @@ func (e *c09Env) runCase(c c09Case, rnd *rand.Rand) {
 		if c.Proto == "redis" && c.Backend != "closed" && c.Backend != "refresh-silent" {
 			waitStat(s, name, "upstream.slots_refresh.success_total", 1, 5*time.Second)
 		}
+		if strings.HasPrefix(c.Placement, "serving-after-health-check-") && c.Proto == "tcp" {
+			// the service was created without a health check; configuration updates add one (then change / remove it again):
+			// whatever the update created must be stopped by Stop
+			hcOn := &hcpb.HealthCheck{Interval: 50 * time.Millisecond, Timeout: time.Second, FallThreshold: 2, RiseThreshold: 2,
+				Checker: &hcpb.HealthCheck_TcpChecker{TcpChecker: &hcpb.TCPChecker{}}}
+			steps := []TCPOpts{{ConnTimeout: 300 * time.Millisecond, HealthCheck: hcOn}}
+			switch c.Placement {
+			case "serving-after-health-check-added-changed":
+				hc2 := *hcOn
+				hc2.Interval = 80 * time.Millisecond
+				steps = append(steps, TCPOpts{ConnTimeout: 300 * time.Millisecond, HealthCheck: &hc2})
+			case "serving-after-health-check-added-removed":
+				steps = append(steps, TCPOpts{ConnTimeout: 300 * time.Millisecond})
+			case "serving-after-health-check-added-removed-added":
+				steps = append(steps, TCPOpts{ConnTimeout: 300 * time.Millisecond}, TCPOpts{ConnTimeout: 300 * time.Millisecond, HealthCheck: hcOn})
+			}
+			for i, o := range steps {
+				if err := s.ConfigUpdate(name, tcpConfigJSON(port, o)); err != nil {
+					if !s.Alive() {
+						r.Violation("C09:crash:"+c.key(), "the proxy process died on a configuration update of the health check", map[string]interface{}{"case": c, "step": i, "tail": s.LogTail(4000)})
+						e.s = nil
+						return
+					}
+					r.Inconclusive("health-check-update-rejected")
+				}
+				time.Sleep(120 * time.Millisecond)
+			}
+		}
 		if c.Placement == "serving-after-host-replace" && cl != nil {
 			// hosts are replaced several times under traffic: clients of the same address are stopped and re-created
 			var hw sync.WaitGroup
@@ -366,7 +395,7 @@ func (e *c09Env) runCase(c c09Case, rnd *rand.Rand) {
 		}
 		time.Sleep(time.Duration(10+rnd.Intn(40)) * time.Millisecond)
 		if c.Placement == "serving-every-backend-queue-full" && cl != nil {
-			time.Sleep(300 * time.Millisecond) // the queues are full
+			time.Sleep(300 * time.Millisecond)             // the queues are full
 			s.HostOp("host_add", name, hostsOf(seeds[:1])) // triggers a slots refresh, which parks in the send to a full backend client
 			time.Sleep(150 * time.Millisecond)
 		}
@@ -678,6 +707,10 @@ func c09(r *ev.Run) {
 					c09Case{proto, "serving-clients-being-recreated", "responsive", 8, "stop"}, c09Case{proto, "serving-clients-being-recreated", "responsive", 8, "stop"},
 					c09Case{proto, "serving-every-backend-queue-full", "silent", 2, "stop"}, c09Case{proto, "serving-every-backend-queue-full", "not-reading", 2, "stop"},
 					c09Case{proto, "serving-backend-queue-full", "silent", 2, "stop"}, c09Case{proto, "serving-backend-queue-full", "not-reading", 1, "drain-then-stop"})
+			}
+			if proto == "tcp" {
+				cases = append(cases, c09Case{proto, "serving-after-health-check-added", "responsive", 1, "stop"}, c09Case{proto, "serving-after-health-check-added-changed", "responsive", 1, "stop"},
+					c09Case{proto, "serving-after-health-check-added-removed", "responsive", 1, "drain-then-stop"}, c09Case{proto, "serving-after-health-check-added-removed-added", "closed", 0, "stop"})
 			}
 			backs := []string{"silent", "not-reading", "closed"}
 			if proto == "redis" {
